@@ -676,6 +676,15 @@ def run(ctx):
     for _ in range(ctx.n(150, 3000)):
         run_group(ctx, gen_group(ctx.rng), lines, pending)
     finish(ctx, lines, pending)
+    # open finding F28: weights after an expansion of the reference catalog (fixed probe; model TW.GC.outerWeight,
+    # theorem expand_weight_outer_join in Proofs/C11.lean)
+    from . import c11_groupcat
+    import logging
+    logging.disable(logging.CRITICAL)
+    try:
+        c11_groupcat.weight_expand_probe(ctx)
+    finally:
+        logging.disable(logging.NOTSET)
 
 
 def replay(ctx, payload):
